@@ -1,5 +1,9 @@
 """C15 - exclusion patterns are honoured for every matching path, whatever the
-listing order, the number of matching siblings, or the source of the pattern."""
+listing order, the number of matching siblings, or the source of the pattern.
+Replay spec: {"files", "proj", "out", "patterns" ({BASE} = sandbox root), "recursive", "auto_exclude",
+ "variants": [{"cwd", "input", "output", "listing_key", "listing_explicit", "sources": [0 -e|1 -s file|2 user config per pattern],
+               "rec_src": where the recursive flag comes from}]}
+"""
 import posixpath
 
 from hypothesis import strategies as st
